@@ -401,7 +401,7 @@ Proof. case_pc pc; cbn; repeat split; congruence. Qed.
 Section W.
 Variables cap phys : N.
 
-Ltac fin := intros; wcl_all; try discriminate; try assumption; try congruence; auto.
+Ltac fin := intros; wcl_all; first [discriminate | assumption | solve [timeout 2 congruence] | solve [timeout 2 auto]].
 
 Lemma p_cls pc :
   (p_taking pc = true -> p_holds_cw pc = true /\ p_notified pc = false) /\
@@ -457,3 +457,120 @@ Proof.
     + intros _. destruct (p_aftersub (ppc s)); [rewrite Lsc in *; discriminate | left; reflexivity].
 Qed.
 End W.
+
+(* ---- producer waits, consumer wakes (mirror image) *)
+Definition p_reg pc := match pc with
+  | PCd (KLoop true) | PPush (KLoop true) _ | PPark | PSwap | PFence => true | _ => false end.
+Definition p_regging pc := match pc with PReg RgSt | PReg RgUnlock => true | _ => false end.
+Definition p_rgst pc := match pc with PReg RgSt => true | _ => false end.
+Definition p_unreg0 pc := match pc with PUnreg _ UnLock => true | _ => false end.
+Definition p_unreg1 pc := match pc with PUnreg _ UnSt | PUnreg _ UnUnlock => true | _ => false end.
+Definition p_fresh pc := match pc with
+  | PCd KTry | PCd KFirst | PCd (KLoop false) | PPush KTry _ | PPush KFirst _ | PPush (KLoop false) _
+  | PSpinDec | PReg _ => true | _ => false end.
+Definition p_ispark pc := match pc with PPark => true | _ => false end.
+Definition p_isswap pc := match pc with PSwap => true | _ => false end.
+Definition p_d2z pc := match pc with PPush (KLoop true) LdA | PPush (KLoop true) LdB | PPark => true | _ => false end.
+Definition c_taking pc := match pc with CWake _ WkSt0 | CWake _ WkStN => true | _ => false end.
+Definition c_notified pc := match pc with CWake _ (WkUnlock true) | CWake _ WkUnpark => true | _ => false end.
+Definition c_owes pc := match pc with CUnreg CUVal _ | CNfFence | CNfLd => true | _ => false end.
+Definition c_wklock pc := match pc with CWake _ WkLock => true | _ => false end.
+Definition c_dpend pc := match pc with CDrSub | CWake WDrop WkLock => true | _ => false end.
+
+Ltac wpl := cbn [p_reg p_regging p_rgst p_unreg0 p_unreg1 p_fresh p_ispark p_isswap p_d2z c_taking c_notified c_owes c_wklock c_dpend
+                 p_holds_cw c_holds_cw p_holds_pw c_holds_pw p_aftersub c_aftersub p_afterst c_afterst p_isdrain c_isdrain orb andb negb].
+Ltac wpl_all := cbn [p_reg p_regging p_rgst p_unreg0 p_unreg1 p_fresh p_ispark p_isswap p_d2z c_taking c_notified c_owes c_wklock c_dpend
+                 p_holds_cw c_holds_cw p_holds_pw c_holds_pw p_aftersub c_aftersub p_afterst c_afterst p_isdrain c_isdrain orb andb negb] in *.
+
+Record WPa (s : st) : Prop := {
+  V_S : pw_slot s = true -> p_reg (ppc s) || p_regging (ppc s) || p_unreg0 (ppc s) = true;
+  V_C2 : p_regging (ppc s) = true -> pw_slot s = true;
+  V_P1 : c_holds_pw (cpc s) = true -> pw_slot s = false;
+  V_C1 : p_unreg1 (ppc s) = true -> pw_slot s = false;
+  V_G : pw_slot s = true -> p_rgst (ppc s) = false -> send_w s = 1;
+  V_Lv : c_taking (cpc s) = true -> p_reg (ppc s) || p_unreg0 (ppc s) = true /\ p_notif s = false;
+  V_N : p_notif s = true -> pw_slot s = false;
+  V_Nf : p_fresh (ppc s) = true -> p_notif s = false;
+  V_Nt : c_notified (cpc s) = true -> p_reg (ppc s) = true -> pw_slot s = false -> p_notif s = true;
+  V_T : p_reg (ppc s) = true -> pw_slot s = false ->
+        c_taking (cpc s) || c_notified (cpc s) = true \/
+        (p_notif s = true /\ (tok_p s = true \/ p_isswap (ppc s) = true))
+}.
+
+Record WP3 (cap : N) (s : st) : Prop := {
+  V_D : p_ispark (ppc s) = true ->
+        cap <= tail s - ch s /\ (head s = ch s \/ c_owes (cpc s) = true \/ c_wklock (cpc s) = true \/ pw_slot s = false);
+  V_D2 : p_d2z (ppc s) = true ->
+        c_afterst (cpc s) = false \/ c_dpend (cpc s) = true \/ pw_slot s = false
+}.
+
+Lemma p_cls2 pc :
+  (p_regging pc = true -> p_holds_pw pc = true) /\ (p_unreg1 pc = true -> p_holds_pw pc = true) /\
+  (p_rgst pc = true -> p_regging pc = true) /\
+  (p_reg pc = true -> p_holds_pw pc = false /\ p_fresh pc = false /\ p_regging pc = false /\ p_unreg0 pc = false /\ p_unreg1 pc = false) /\
+  (p_unreg0 pc = true -> p_holds_pw pc = false /\ p_fresh pc = false /\ p_reg pc = false /\ p_regging pc = false) /\
+  (p_ispark pc = true -> p_reg pc = true /\ p_rgst pc = false /\ p_d2z pc = true) /\
+  (p_d2z pc = true -> p_reg pc = true /\ p_rgst pc = false) /\
+  (p_isswap pc = true -> p_reg pc = true).
+Proof. case_pc pc; cbn; repeat split; congruence. Qed.
+
+Lemma c_cls2 pc :
+  (c_taking pc = true -> c_holds_pw pc = true /\ c_notified pc = false) /\
+  (c_notified pc = true -> c_taking pc = false).
+Proof. case_pc pc; cbn; repeat split; congruence. Qed.
+
+Section WP.
+Variables cap phys : N.
+
+Ltac finp := intros; wpl_all; first [discriminate | assumption | solve [timeout 2 congruence] | solve [timeout 2 auto]].
+
+Lemma WPa_step s t c s' e :
+  LockInv s -> WPa s -> step cap phys s t c = Some (s', e) -> WPa s'.
+Proof.
+  intros [_ _ K1 K2] [H1 H2 H3 H4 H5 H6 H7 H8 H9 H10] Hs.
+  destruct t; cbn [step] in Hs; [unfold pstep in Hs | unfold cstep in Hs].
+  - destruct (ppc s) eqn:Epc; rewrite ?Epc in *; wpl_all; unf_steps; inv_step Hs; unf_steps; split_goal.
+    all: constructor; st_goal; rewrite ?Epc; wpl.
+    all: try assumption.
+    all: try solve [finp].
+    all: destruct (c_cls2 (cpc s)) as (Q1 & Q2);
+      destruct (c_taking (cpc s)), (c_notified (cpc s)), (c_holds_pw (cpc s)), (p_notif s), (pw_slot s);
+      cbn [orb andb negb] in *; try solve [intuition congruence].
+  - destruct (cpc s) eqn:Epc; rewrite ?Epc in *; wpl_all; unf_steps; inv_step Hs; unf_steps; split_goal.
+    all: constructor; st_goal; rewrite ?Epc; wpl.
+    all: try assumption.
+    all: try solve [finp].
+    all: destruct (p_cls2 (ppc s)) as (Q1 & Q2 & Q3 & Q4 & Q5 & Q6 & Q7 & Q8);
+      destruct (p_holds_pw (ppc s)); cbn [orb andb] in *; try discriminate.
+    all: try solve [intuition congruence].
+    all: destruct (p_reg (ppc s)), (p_regging (ppc s)), (p_unreg0 (ppc s)), (p_fresh (ppc s)), (p_notif s);
+      cbn [orb andb] in *; try solve [intuition congruence].
+Qed.
+
+Lemma WP3_step s t c s' e :
+  LifeInv s -> WPa s -> WP3 cap s -> step cap phys s t c = Some (s', e) -> WP3 cap s'.
+Proof.
+  intros HL [H1 H2 H3 H4 H5 H6 H7 H8 H9 H10] [D1 D2] Hs.
+  pose proof (L_rc _ HL) as Lrc. pose proof (L_cdr _ HL) as Lcdr. pose proof (L_pcl _ HL) as Lpcl.
+  pose proof (L_ccl _ HL) as Lccl. pose proof (L_cd _ HL) as Lcd. clear HL.
+  destruct t; cbn [step] in Hs; [unfold pstep in Hs | unfold cstep in Hs].
+  - destruct (ppc s) eqn:Epc; rewrite ?Epc in *; wpl_all; unf_steps; inv_step Hs; unf_steps; split_goal.
+    all: constructor; st_goal; rewrite ?Epc; wpl.
+    all: try assumption.
+    all: try solve [finp].
+    + intros X. destruct k as [| |[]]; discriminate X.
+    + intros _. split; [apply N.leb_le; exact E | left; reflexivity].
+    + intros X. destruct k as [| |[]]; discriminate X.
+  - destruct (cpc s) eqn:Epc; rewrite ?Epc in *; wpl_all; unf_steps; inv_step Hs; unf_steps; split_goal.
+    all: constructor; st_goal; rewrite ?Epc; wpl.
+    all: try assumption.
+    all: try solve [finp].
+    all: try congruence.
+    all: try (rewrite Lrc in *; discriminate).
+    all: try (rewrite (Lcdr eq_refl) in *; wpl_all; discriminate).
+    all: destruct (p_cls2 (ppc s)) as (Q1 & Q2 & Q3 & Q4 & Q5 & Q6 & Q7 & Q8).
+    all: try solve [timeout 5 (intuition congruence)].
+    { intros X. destruct (D1 X) as [A B]. split; [exact A|]. destruct (pw_slot s) eqn:Es; [|auto].
+      exfalso. rewrite (H5 eq_refl (proj1 (proj2 (Q6 X)))) in E. discriminate. }
+Qed.
+End WP.
